@@ -27,6 +27,9 @@ type unode struct {
 type uprog struct {
 	imp   string // import declaration or ""
 	stmts []*unode
+	// pre/post: text around the statements when it is not the default (helpers + func main)
+	pre, post string
+	line      string // protocol line for the model, if any
 }
 
 const uHelpers = "func f0() {}\nfunc f1(x int) int { return x }\nfunc f2() (int, int) { return 1, 2 }\n"
@@ -69,12 +72,20 @@ func (p *uprog) src() string {
 	if p.imp != "" {
 		b.WriteString(p.imp + "\n")
 	}
-	b.WriteString(uHelpers)
-	b.WriteString("func main() {\n")
+	if p.pre != "" {
+		b.WriteString(p.pre)
+	} else {
+		b.WriteString(uHelpers)
+		b.WriteString("func main() {\n")
+	}
 	for _, s := range p.stmts {
 		s.write(&b, "\t")
 	}
-	b.WriteString("}\n")
+	if p.post != "" {
+		b.WriteString(p.post)
+	} else {
+		b.WriteString("}\n")
+	}
 	return b.String()
 }
 
@@ -89,7 +100,9 @@ func cloneNodes(ns []*unode) []*unode {
 	return out
 }
 
-func (p *uprog) clone() *uprog { return &uprog{imp: p.imp, stmts: cloneNodes(p.stmts)} }
+func (p *uprog) clone() *uprog {
+	return &uprog{imp: p.imp, stmts: cloneNodes(p.stmts), pre: p.pre, post: p.post}
+}
 
 type ugen struct {
 	r      *proto.Rand
